@@ -78,6 +78,9 @@ def run(ctx):
         return any(c_.name() == "push" and c_.args and any("potential_destruct_calls" in t_ for t_ in op_prov(h_, c_.args[0], 10))
                    for h_ in [g_] + F.closures_of(g_) for c_ in h_.calls())
     acf = [c for c in da.calls() if c.path != da.path and registers(c.path)]
+    # ... or records it itself (the helper inlined)
+    direct = [c for c in da.calls() if c.name() == "push" and c.args and any("potential_destruct_calls" in t_ for t_ in op_prov(da, c.args[0], 10))]
+    acf = acf + direct
     ok_edges = set()
     drop_sw = None
     for bb, t in da.switches():
@@ -126,6 +129,8 @@ def run(ctx):
         toks = set()
         for a in c.args[1:]:
             toks |= set("f:" + x for x in source_fields(da, a))
+            if c in direct:
+                toks |= {t for t in op_prov(da, a, 16) if t in ("f:destruct_impl", "f:panic_destruct_impl", "f:destruct_fn", "f:panic_destruct_fn")}
         pairs.append((("destruct_impl" if "f:destruct_impl" in toks else "") + ("|panic_destruct_impl" if "f:panic_destruct_impl" in toks else ""),
                       ("destruct_fn" if "f:destruct_fn" in toks else "") + ("|panic_destruct_fn" if "f:panic_destruct_fn" in toks else ""), c))
     want = {("destruct_impl", "destruct_fn"), ("|panic_destruct_impl", "|panic_destruct_fn")}
